@@ -56,21 +56,21 @@ type c05Env struct {
 }
 
 type c05Case struct {
-	N       int    `json:"chain_len"`
-	Format  string `json:"format"`
-	SA      bool   `json:"signing_authority"`
-	Action  string `json:"action"`
-	Level   string `json:"level"`
-	Val     int    `json:"validators"`
-	VErr    bool   `json:"validator_error"`
-	VErrRes bool   `json:"validator_error_with_results"` // the validator returns its error TOGETHER with a complete result vector (Vec)
-	Vec     []int  `json:"vector"`
-	Method  int    `json:"method_annotation"`
-	SrvErr  bool   `json:"server_errors"`
+	N       int      `json:"chain_len"`
+	Format  string   `json:"format"`
+	SA      bool     `json:"signing_authority"`
+	Action  string   `json:"action"`
+	Level   string   `json:"level"`
+	Val     int      `json:"validators"`
+	VErr    bool     `json:"validator_error"`
+	VErrRes bool     `json:"validator_error_with_results"` // the validator returns its error TOGETHER with a complete result vector (Vec)
+	Vec     []int    `json:"vector"`
+	Method  int      `json:"method_annotation"`
+	SrvErr  bool     `json:"server_errors"`
 	Ann     []c05Ann `json:"annotations,omitempty"` // explicit per-certificate annotations (method, server results); nil: derived from Method / SrvErr
-	NilRes  bool   `json:"nil_result_slice"`        // the validator returns (nil, nil): no results and no error
-	Stime   int64  `json:"signing_time_unix"`       // signing time in the signed attributes of the envelope (ground truth from notation-core-go)
-	Step    int    `json:"history_step"` // > 0: n-th verification on one and the same verifier instance (the verdict must not depend on earlier calls)
+	NilRes  bool     `json:"nil_result_slice"`      // the validator returns (nil, nil): no results and no error
+	Stime   int64    `json:"signing_time_unix"`     // signing time in the signed attributes of the envelope (ground truth from notation-core-go)
+	Step    int      `json:"history_step"`          // > 0: n-th verification on one and the same verifier instance (the verdict must not depend on earlier calls)
 	hist    *c05Hist
 	Blob    bool `json:"via_verify_blob"` // this step goes through VerifyBlob under the blob statement of the SAME verifier (named like the OCI one)
 	Token   bool `json:"timestamp_token"` // the envelope carries a valid RFC 3161 countersignature (policy lists no tsa store)
@@ -246,6 +246,8 @@ func runC05(a *Args) error {
 		}
 		if c.NilRes {
 			results = nil
+		} else if results == nil && !c.VErr {
+			results = []*revresult.CertRevocationResult{} // an empty, non-nil slice
 		}
 		// the input term is printed from what the validator really hands back
 		for _, r := range results {
